@@ -146,6 +146,13 @@ pub fn cases(rng: &mut Rng, thorough: bool) -> Vec<SchedCase> {
         (0..60).map(|i| if i % 3 == 2 { call("boom", arg((i % 7) as i128)) } else { call(if i % 2 == 0 { "g" } else { "h" }, arg((i % 7) as i128)) }).collect(),
         // a cacheable call completed before a suspending one (what a dropped evaluation may leave behind)
         vec![call("g", arg(0)), call("h", arg(1)), call("g", arg(0)), call("h", arg(2))],
+        // list / map constructors whose entries are computed from the input and from calls on it (what such a rule yields for
+        // one input is not what it yields for the other)
+        vec![
+            Expr::Vec(vec![mk_bin("sub", reff("x"), lit(Value::Int(1))), mk_bin("add", reff("x"), reff("y"))]),
+            emap(vec![("t", mk_bin("mult", reff("x"), lit(Value::Int(2)))), ("c", lit(Value::String("EUR".into())))]),
+            Expr::Vec(vec![lit(Value::Int(0)), mk_bin("add", idxn(call("g", arg(0)), 0), lit(Value::Int(1)))]),
+        ],
     ];
     let pend_sets: Vec<[usize; 3]> = if thorough { vec![[0, 0, 0], [1, 0, 0], [1, 1, 1], [2, 1, 0], [0, 2, 1], [3, 0, 1]] } else { vec![[0, 0, 0], [1, 1, 0], [2, 0, 1]] };
     for rules in &rule_sets {
@@ -172,7 +179,7 @@ pub fn run(rep: &mut Report, driver: &str, workers: usize, thorough: bool, seed:
     let model = par_batch(driver, workers, &reqs);
     let mut sr = StreamReport::new(
         "poll-schedules",
-        "8 rulesets (one of them with 60 rules; cached / uncached / failing user functions, lazy and strict operators, references missing only on the branch one input takes, a cacheable call completed before a suspending one) x suspension patterns (each user-function call returns Pending 0..3 times) x cacheability; two evaluations of ONE shared RuleSet on different inputs polled by a hand-rolled executor (no-op waker) under EVERY interleaving of their polls (up to 924 schedules per case; larger cases: 400 sampled), every abandonment point of one evaluation (dropped after j polls) followed by a fresh evaluation — with a second evaluation in flight, and alone followed by four fresh evaluations —, every sequence of three completed evaluations over the two inputs, 3 consecutive evaluations, two rulesets built from clones of the same rules (different symbols and functions) evaluated alternately, and rules cloned out of one ruleset's outcomes loaded into another; compared per evaluation: outcomes and the order of its own user-function invocations, against the model's sequential result",
+        "9 rulesets (one of them with 60 rules; cached / uncached / failing user functions, lazy and strict operators, references missing only on the branch one input takes, a cacheable call completed before a suspending one, list / map constructors computed from the input) x suspension patterns (each user-function call returns Pending 0..3 times) x cacheability; two evaluations of ONE shared RuleSet on different inputs polled by a hand-rolled executor (no-op waker) under EVERY interleaving of their polls (up to 924 schedules per case; larger cases: 400 sampled), every abandonment point of one evaluation (dropped after j polls) followed by a fresh evaluation — with a second evaluation in flight, and alone followed by four fresh evaluations —, every sequence of three completed evaluations over the two inputs, 3 consecutive evaluations, two rulesets built from clones of the same rules (different symbols and functions) evaluated alternately, and rules cloned out of one ruleset's outcomes loaded into another; compared per evaluation: outcomes and the order of its own user-function invocations, against the model's sequential result",
         false,
     );
     let max_sched = if thorough { 924 } else { 300 };
